@@ -709,7 +709,11 @@ func (x *Exec) execStmt(st *State, s ast.Stmt) *State {
 		}
 	}
 	if st != nil && x.spec == 0 && x.noSafety == 0 {
-		if c := x.eng.cf.Contracts[x.frame().qual]; c != nil && len(c.AssertBefore) > 0 && !x.infeasible(st) {
+		c := x.eng.cf.Contracts[x.frame().qual]
+		if c == nil {
+			c = x.eng.cf.Contracts[x.qual] // inside a function literal of the function under verification
+		}
+		if c != nil && len(c.AssertBefore) > 0 && !x.infeasible(st) {
 			switch s.(type) {
 			case *ast.AssignStmt, *ast.ExprStmt, *ast.IncDecStmt, *ast.DeclStmt, *ast.ReturnStmt, *ast.BranchStmt, *ast.SendStmt:
 				txt := x.eng.srcText(s)
@@ -729,7 +733,11 @@ func (x *Exec) execStmt(st *State, s ast.Stmt) *State {
 	}
 	out := x.execStmt1(st, s)
 	if out != nil && x.spec == 0 && x.noSafety == 0 {
-		if c := x.eng.cf.Contracts[x.frame().qual]; c != nil && len(c.GhostAfter) > 0 {
+		c := x.eng.cf.Contracts[x.frame().qual]
+		if c == nil {
+			c = x.eng.cf.Contracts[x.qual]
+		}
+		if c != nil && len(c.GhostAfter) > 0 {
 			switch s.(type) {
 			case *ast.AssignStmt, *ast.ExprStmt, *ast.IncDecStmt, *ast.DeclStmt, *ast.SendStmt:
 				txt := x.eng.srcText(s)
